@@ -1534,6 +1534,12 @@ class Engine:
         return bound
 
     def apply_contract(self, st, c, args, kw, line, label):
+        if getattr(c, 'assumed', False):
+            if not hasattr(self, 'assumed_used'):
+                self.assumed_used = []
+            item = (c.key, (getattr(c, 'note', '') or '')[:160])
+            if item not in self.assumed_used:
+                self.assumed_used.append(item)
         a = self.bind_args(c, args, kw, line)
         a = c.adapt_args(self, st, a, line)
         S0 = st.heap.copy()
